@@ -192,7 +192,7 @@ def lists_match(io, mo):
     return io is not None and mo is not None and len(io) == len(mo) and all(line_match(a, b) for a, b in zip(io, mo))
 
 
-def compare_case(engine, lines, timeout=120):
+def compare_case(engine, lines, timeout=40):
     """Run one case on both sides. Returns None if equal, else dict describing the first difference."""
     text = 'engine %s\ncase 0\n' % engine + '\n'.join(lines) + '\n'
     rc1, impl, err1 = run_script(NVDRIVE, text, timeout, env=GOENV)
@@ -206,15 +206,19 @@ def compare_case(engine, lines, timeout=120):
     return None
 
 
-def shrink_case(engine, lines, keep_prefix=1, budget=400, accept=None):
+def shrink_case(engine, lines, keep_prefix=1, budget=400, accept=None, timeout=40):
     """delta-debugging on the op lines of one failing case (the first keep_prefix lines are kept)."""
     head, body = lines[:keep_prefix], lines[keep_prefix:]
     tries = 0
+    t_start = time.time()
 
     def fails(b):
         nonlocal tries
         tries += 1
-        d = compare_case(engine, head + b)
+        if time.time() - t_start > (90 if timeout <= 10 else 240):      # never spend more than a few minutes shrinking
+            tries = budget
+            return False
+        d = compare_case(engine, head + b, timeout=timeout)
         if d is None:
             return False
         if 'bad-op' in d['model'] or 'bad-op' in d['impl']:
@@ -259,8 +263,10 @@ def differential(engine, cases, result, prop, tier, known=None, keep_prefix=1, n
     text = 'engine %s\n' % engine
     for i, c in enumerate(cases):
         text += 'case %d\n' % i + '\n'.join(c) + '\n'
-    rc1, impl, err1 = run_script(NVDRIVE, text, 3000, env=GOENV)
-    rc2, model, err2 = run_script(NVMODEL, text, 3000)
+    batch_timeout = 240 if tier == 'quick' else 2400
+    rc1, impl, err1 = run_script(NVDRIVE, text, batch_timeout, env=GOENV)
+    rc2, model, err2 = run_script(NVMODEL, text, batch_timeout)
+    hung = rc1 == -9
     ic = split_cases(impl)
     mc = split_cases(model)
     viol = []
@@ -282,17 +288,18 @@ def differential(engine, cases, result, prop, tier, known=None, keep_prefix=1, n
                 cov['samples'].append({'engine': engine, 'script': c[:40], 'outputs': io[:40]})
             continue
         # mismatch (or a process died): re-run this case alone
-        d = compare_case(engine, c)
+        d = compare_case(engine, c, timeout=20 if hung else 40)
         if d is None:
             # not reproducible in isolation: state leaked between cases or nondeterminism
             d = {'line': -1, 'op': '<case differs only inside the batch>', 'impl': str((io or [])[:3]), 'model': str((mo or [])[:3])}
             small = c
         else:
-            small = shrink_case(engine, c, keep_prefix=keep_prefix)
-            d = compare_case(engine, small) or d
+            is_hang = '<no output' in d.get('impl', '')
+            small = shrink_case(engine, c, keep_prefix=keep_prefix, budget=25 if is_hang else 400, timeout=10 if is_hang else 40)
+            d = compare_case(engine, small, timeout=20 if is_hang else 40) or d
         viol.append({'engine': engine, 'script': small, 'diff': d, 'original_len': len(c)})
-        if len(viol) >= max_report:
-            break
+        if len(viol) >= max_report or '<no output' in d.get('impl', ''):
+            break       # one hang/crash witness is enough: every further one costs a timeout
     cov['wall_diff_s'] = cov.get('wall_diff_s', 0) + time.time() - t0
     if rc2 != 0 and not viol:
         result['tie_errors'].append('model driver failed: rc=%s %s' % (rc2, err2[-300:]))
@@ -404,8 +411,8 @@ def differential_interactive(engine, gen, n, rng, tier, result, nontrivial=None,
             small = shrink_case(engine, c, keep_prefix=keep_prefix)
             d = compare_case(engine, small) or d
         viol.append({'engine': engine, 'script': small, 'diff': d, 'original_len': len(c)})
-        if len(viol) >= max_report:
-            break
+        if len(viol) >= max_report or '<no output' in d.get('impl', ''):
+            break       # one hang/crash witness is enough: every further one costs a timeout
     cov['wall_diff_s'] = cov.get('wall_diff_s', 0) + time.time() - t0
     if rc2 != 0 and not viol:
         result['tie_errors'].append('model driver failed: rc=%s %s' % (rc2, err2[-300:]))
